@@ -102,6 +102,17 @@ func buildSide(l lm.List, tag string, st, rg []string, receiver int, uidBase int
 			s.Regions[k] = v
 		}
 	}
+	// every cue references definitions of its own side (item, run and region references), so a merge that
+	// re-points, copies or edits cues on an identifier clash shows in the snapshots
+	for i, it := range s.Items {
+		if len(st) > 0 {
+			it.Style = s.Styles[st[i%len(st)]]
+			it.Lines[0].Items[0].Style = s.Styles[st[(i+1)%len(st)]]
+		}
+		if len(rg) > 0 {
+			it.Region = s.Regions[rg[i%len(rg)]]
+		}
+	}
 	return s, ids
 }
 
